@@ -187,7 +187,7 @@ Proof. vm_compute. reflexivity. Qed.
 Lemma enc_zero : forall e k, enc e k 0 = repeat 0 k.
 Proof.
   assert (H : forall k, le_bytes k 0 = repeat 0 k).
-  { induction k; cbn [le_bytes repeat]; auto. rewrite N.mod_0_l, N.div_0_l by lia. rewrite IHk. reflexivity. }
+  { induction k; cbn [le_bytes repeat]; auto. rewrite N.land_0_l, N.shiftr_0_l, IHk. reflexivity. }
   intros [] k; unfold enc; rewrite H; auto.
   induction k; cbn [repeat rev]; auto. rewrite IHk.
   clear. induction k; cbn [repeat app]; auto. rewrite IHk. reflexivity.
@@ -230,18 +230,17 @@ Example dnd_example : decode_dnd LE (dnd_write LE [2; 1; 3]) =
 Proof. vm_compute. auto. Qed.
 
 (* ------------------------------------------------------------------ binary32 patterns fit 32 bits *)
-Lemma f64_to_f32_lt : forall p, p < two64 -> f64_to_f32 p < two32.
+Lemma f64_to_f32_lt : forall p, f64_to_f32 p < two32.
 Proof.
-  intros p Hp. unfold f64_to_f32.
-  assert (Hs : p / 2 ^ 63 <= 1).
-  { apply N.lt_succ_r. apply N.div_lt_upper_bound; [discriminate|]. exact Hp. }
-  set (sign := p / 2 ^ 63) in *.
-  assert (Hsb : sign * 2 ^ 31 <= 2147483648) by (change (2 ^ 31) with 2147483648; lia).
-  destruct ((p / 2 ^ 52) mod 2048 =? 2047).
-  - destruct (p mod 2 ^ 52 =? 0).
+  intros p. unfold f64_to_f32.
+  set (sbit := if N.testbit p 63 then p31 else 0).
+  assert (Hsb : sbit <= 2147483648) by (unfold sbit, p31; destruct (N.testbit p 63); lia).
+  destruct (N.land (N.shiftr p 52) 2047 =? 2047).
+  - destruct (N.land p 4503599627370495 =? 0).
     + unfold two32; lia.
-    + pose proof (N.mod_lt ((p mod 2 ^ 52) / 2 ^ 29) (2 ^ 22)) as M.
-      change (2 ^ 22) with 4194304 in *. unfold two32. lia.
+    + assert (M : N.land (N.shiftr (N.land p 4503599627370495) 29) 4194303 < 4194304).
+      { change 4194303 with (N.ones 22). rewrite N.land_ones. apply N.mod_lt. discriminate. }
+      unfold two32. lia.
   - match goal with |- context [if ?c then _ else _] => destruct c end; [unfold two32; lia|].
     match goal with |- _ + Z.to_N (if ?c then _ else ?b) < _ => destruct c eqn:E end.
     + unfold two32. change (Z.to_N 2139095040) with 2139095040. lia.
